@@ -469,4 +469,29 @@ func c5pEmitWitness() {
 	pat("W_INSERT_PAT", "insert into log (m) values (%%VALUE%%)")
 	stmt("W_INSERT_RET", "insert into log (m) values ('x') returning (select p from secrets)")
 	stmt("W_INSERT", "insert into log (m) values ('x')")
+	// clause order of handleUpdateStatement / handleDeleteStatement (Properties/C05_clauses.v): RETURNING is compared
+	// BEFORE the WHERE clause, so a pattern that ends in %%WHERE%% does not admit an added RETURNING clause
+	pat("W_DEL_WPAT", "delete from sessions %%WHERE%%")
+	stmt("W_DEL_OK", "delete from sessions where id = 17")
+	stmt("W_DEL_RET", "delete from sessions where id = 17 returning (select password from users where name = 'admin')")
+	pat("W_DEL_WPAT_RET", "delete from sessions %%WHERE%% returning token")
+	stmt("W_DEL_RET_TOKEN", "delete from sessions where id = 17 returning token")
+	c5cSetDialect(true) // UPDATE ... RETURNING parses in the PostgreSQL dialect only
+	pat("W_UPD_WPAT", "update accounts set balance = %%VALUE%% %%WHERE%%")
+	stmt("W_UPD_OK", "update accounts set balance = 10 where id = 3")
+	stmt("W_UPD_RET", "update accounts set balance = 10 where id = 3 returning (select password from users limit 1)")
+	c5cSetDialect(false)
+	// the clauses the %%WHERE%% early exit does skip (known finding where-placeholder-absorbs-tail), one witness each
+	pat("W_TAIL_SEL_PAT", "select a from t %%WHERE%% group by a having count(a) > 1 order by a limit 1 for update")
+	stmt("W_TAIL_SEL_GROUPBY", "select a from t where b = 2 group by b having count(a) > 1 order by a limit 1 for update")
+	stmt("W_TAIL_SEL_HAVING", "select a from t where b = 2 group by a having count(a) > 2 order by a limit 1 for update")
+	stmt("W_TAIL_SEL_ORDERBY", "select a from t where b = 2 group by a having count(a) > 1 order by b limit 1 for update")
+	stmt("W_TAIL_SEL_LIMIT", "select a from t where b = 2 group by a having count(a) > 1 order by a limit 2 for update")
+	stmt("W_TAIL_SEL_LOCK", "select a from t where b = 2 group by a having count(a) > 1 order by a limit 1 lock in share mode")
+	pat("W_TAIL_UPD_PAT", "update t set a = 1 %%WHERE%% order by a limit 1")
+	stmt("W_TAIL_UPD_ORDERBY", "update t set a = 1 where b = 2 order by b limit 1")
+	stmt("W_TAIL_UPD_LIMIT", "update t set a = 1 where b = 2 order by a limit 2")
+	pat("W_TAIL_DEL_PAT", "delete from t %%WHERE%% order by a limit 1")
+	stmt("W_TAIL_DEL_ORDERBY", "delete from t where b = 2 order by b limit 1")
+	stmt("W_TAIL_DEL_LIMIT", "delete from t where b = 2 order by a limit 2")
 }
